@@ -3,6 +3,9 @@ import Driver.OpsCase
 import Driver.OpsVariant
 import Driver.OpsSerde
 import Driver.OpsHistory
+import Driver.OpsOutput
+import Driver.OpsClap
+import Driver.OpsScope
 /-
   rmodel: the executable side of the Lean model.  One request per line on stdin, one canonical
   result line on stdout; the same lines go to the Rust harness and the two streams are diffed.
@@ -15,6 +18,9 @@ def handlers : List (List String → Option String) :=
   , OpsVariant.dispatch
   , OpsSerde.dispatch
   , OpsHistory.dispatch
+  , OpsOutput.dispatch
+  , OpsClap.dispatch
+  , OpsScope.dispatch
   ]
 
 def dispatch (fields : List String) : String :=
